@@ -4,7 +4,8 @@ import VelaVerif.Handlers.Util
 /-!
 Protocol of the MLW writer model (C07, `Model/MlwEncode.lean`).  `-` stands for an empty list.
 
-* `mlwenc <plan> <weights csv>` → `ok planok=<0|1> <hex of the stream>` | `err:<kind> planok=<0|1>`
+* `mlwenc <plan> <weights csv>` → `ok planok=<0|1> fits=<0|1> <hex of the stream>` | `err:<kind> planok=<0|1>`
+  (`fits` = the stream is not longer than the encoder's output buffer, `Spec/MlwPlan.lean` `fitsBuffer`)
   (`planok` = `Spec/MlwPlan.lean` `planOk plan weights`, the hypothesis of `decode_encode_plan`)
   plan = sections joined by `|` (`-` for no section); section =
   `size;lut csv;palbits;useZeroRuns;onlyPalette;directOffset;onlyZeros;slices`, slices = `len:wcfg:zcfg` joined by `/`
@@ -42,7 +43,7 @@ def handle : List String → Option String
     let pk := boolStr (planOk plan ws)
     match write plan ws with
     | .error e => some s!"err:{e.toString} planok={pk}"
-    | .ok bytes => some s!"ok planok={pk} {if bytes.isEmpty then "-" else hexBytes bytes}"
+    | .ok bytes => some s!"ok planok={pk} fits={boolStr (fitsBuffer ws.length bytes.length)} {if bytes.isEmpty then "-" else hexBytes bytes}"
   | _ => none
 
 end VelaVerif.Handlers.MlwEnc
